@@ -409,3 +409,61 @@ func TestRegressTakeoverStoredBlock(t *testing.T) {
 }
 
 func TestReplay(t *testing.T) { ev.ReplayTest(t, subWS, subQF, subQR, subWT) }
+
+// FuzzWebSocketSeq: coverage-guided search over message CONTENT (the generated kinds above are a handful of shapes; the deflate
+// dictionary/stored-block logic depends on the bytes). The input is cut into messages by a cut script, the cell of the compression
+// grid is chosen by three bytes; the round-trip + independent-decoder oracle of tk.RunBodies judges it.
+func FuzzWebSocketSeq(f *testing.F) {
+	rnd := make([]byte, 700)
+	x := uint32(12345)
+	for i := range rnd {
+		x ^= x << 13
+		x ^= x >> 17
+		x ^= x << 5
+		rnd[i] = byte(x)
+	}
+	f.Add(uint8(2), uint8(4), uint8(2), []byte{30, 30, 200}, rnd)
+	f.Add(uint8(2), uint8(9), uint8(15), []byte{0, 1, 255}, bytes.Repeat([]byte("abcabcabd"), 90))
+	f.Add(uint8(1), uint8(1), uint8(0), []byte{7}, append(bytes.Repeat([]byte{0}, 300), rnd...))
+	f.Add(uint8(0), uint8(0), uint8(0), []byte{}, []byte("x"))
+	f.Fuzz(func(t *testing.T, ty, level, win uint8, cuts, data []byte) {
+		types := []string{"", "per-message", "context-takeover", "unknown"}
+		lv, w := int(level%11), int(win%34)
+		comp := tk.Comp{Type: types[int(ty)%len(types)]}
+		if lv < 10 {
+			comp.Level = &lv
+		}
+		if w < 33 {
+			comp.Win = &w
+		}
+		var bodies [][]byte
+		rest := data
+		for _, c := range cuts {
+			n := int(c) * 3
+			if n > len(rest) {
+				n = len(rest)
+			}
+			bodies = append(bodies, rest[:n])
+			rest = rest[n:]
+		}
+		bodies = append(bodies, rest)
+		if len(bodies) > 24 {
+			bodies = bodies[:24]
+		}
+		k := ev.Begin("websocket-fuzz")
+		p := wsPair(comp)
+		defer p.Close()
+		if fl := tk.RunBodies(comp, bodies, p, k, "websocket"); fl != nil {
+			ev.Report("websocket-fuzz", map[string]any{"comp": comp, "bodies_hex": hexAll(bodies)}, fl)
+			t.Fatalf("%s: %s", fl.Clause, fl.Message)
+		}
+	})
+}
+
+func hexAll(bs [][]byte) []string {
+	r := make([]string, len(bs))
+	for i, b := range bs {
+		r[i] = fmt.Sprintf("%x", b)
+	}
+	return r
+}
